@@ -163,6 +163,7 @@ class Executor:
         self.deadline = None
         self.merge = True
         self.guide = None        # list of (z3 var, z3 value): follow only the path this concrete input takes
+        self.record_trace = False
         self.obj_bases = {}
         self.merged = 0
         self._simple_cache = {}
@@ -794,6 +795,8 @@ class Executor:
     def branch(self, st, work, cond, tgt_true, tgt_false):
         fr = st.frames[-1]
         if is_conc_bool(cond):
+            if self.record_trace:
+                st.trace.append(tgt_true if cond else tgt_false)
             self.goto(st, tgt_true if cond else tgt_false)
             return
         cs = z3.simplify(cond)
